@@ -165,6 +165,7 @@ const (
 	sBool
 	sNat // unsigned Go integer of `width` bits
 	sInt // signed Go integer
+	sBytes // []byte: a Lean `Bytes` (list of octets)
 )
 
 type lval struct {
@@ -174,6 +175,7 @@ type lval struct {
 	text  string // canonical Go text (always set)
 	tuple []lval // components of a multi-value call result
 	cst   constant.Value // set for compile-time constants (also of variables assigned a constant)
+	src   ast.Expr       // the composite literal a local was defined by (returned records are flattened through it)
 }
 
 type latom struct {
@@ -217,6 +219,11 @@ func (t *ltrans) atom(text string, s lsort, width int) lval {
 func sortOfType(ty types.Type) (lsort, int) {
 	if ty == nil {
 		return sOpaque, 0
+	}
+	if sl, ok := ty.Underlying().(*types.Slice); ok {
+		if eb, ok := sl.Elem().Underlying().(*types.Basic); ok && eb.Kind() == types.Uint8 {
+			return sBytes, 0
+		}
 	}
 	b, ok := ty.Underlying().(*types.Basic)
 	if !ok {
@@ -405,6 +412,50 @@ func (t *ltrans) eval(e ast.Expr, env lenv) lval {
 		if ftv, ok := t.p.info.Types[x.Fun]; ok && ftv.IsType() && len(x.Args) == 1 {
 			return t.convert(x, env, tv.Type)
 		}
+		fn := t.raw(x.Fun)
+		if len(x.Args) == 1 && (fn == "len" || fn == "binary.BigEndian.Uint16" || fn == "binary.BigEndian.Uint32") {
+			if st, _ := sortOfType(t.p.info.TypeOf(x.Args[0])); st != sBytes {
+				return t.byType(t.text(e, env), tv.Type)
+			}
+			if a := t.eval(x.Args[0], env); a.sort == sBytes {
+				switch fn {
+				case "len":
+					return lval{sort: sInt, width: 64, lean: "((" + a.lean + ".length : Nat) : Int)", text: t.text(e, env)}
+				case "binary.BigEndian.Uint16":
+					return lval{sort: sNat, width: 16, lean: "(TRV.Logic.be " + a.lean + " 2)", text: t.text(e, env)}
+				case "binary.BigEndian.Uint32":
+					return lval{sort: sNat, width: 32, lean: "(TRV.Logic.be " + a.lean + " 4)", text: t.text(e, env)}
+				}
+			}
+		}
+		return t.byType(t.text(e, env), tv.Type)
+	case *ast.SliceExpr:
+		// constant-bounded sub-slices of octet strings
+		if b := t.eval(x.X, env); b.sort == sBytes && x.Max == nil {
+			lo, hi := "0", ""
+			okc := true
+			if x.Low != nil {
+				if v := t.p.info.Types[x.Low].Value; v != nil {
+					lo = v.ExactString()
+				} else {
+					okc = false
+				}
+			}
+			if x.High != nil {
+				if v := t.p.info.Types[x.High].Value; v != nil {
+					hi = v.ExactString()
+				} else {
+					okc = false
+				}
+			}
+			if okc {
+				l := "(" + b.lean + ".drop " + lo + ")"
+				if hi != "" {
+					l = "(" + l + ".take (" + hi + " - " + lo + "))"
+				}
+				return lval{sort: sBytes, lean: l, text: t.text(e, env)}
+			}
+		}
 		return t.byType(t.text(e, env), tv.Type)
 	}
 	return t.byType(t.text(e, env), tv.Type)
@@ -530,6 +581,13 @@ func isErrorType(ty types.Type) bool {
 }
 
 func (t *ltrans) retVals(prefix string, e ast.Expr, env lenv, depth int) []string {
+	if id, ok := e.(*ast.Ident); ok {
+		if obj := t.p.info.Uses[id]; obj != nil {
+			if v, ok := env[obj]; ok && v.src != nil {
+				e = v.src // a local that holds a record built in place: flatten the record
+			}
+		}
+	}
 	tv := t.p.info.Types[e]
 	if id, ok := e.(*ast.Ident); ok && id.Name == "nil" {
 		return []string{fmt.Sprintf("(%s, V.nil)", leanStr(prefix))}
@@ -722,6 +780,13 @@ func (t *ltrans) exec(stmts []ast.Stmt, env lenv, effects []string, depth int) s
 			vals := make([]lval, len(x.Rhs))
 			for i, r := range x.Rhs {
 				vals[i] = t.eval(r, env)
+				inner := r
+				if u, ok := r.(*ast.UnaryExpr); ok && u.Op == token.AND {
+					inner = u.X
+				}
+				if _, ok := inner.(*ast.CompositeLit); ok && vals[i].sort == sOpaque {
+					vals[i].src = r
+				}
 			}
 			for i, l := range x.Lhs {
 				t.assign(l, vals[i], env, &eff, vals[i].text)
@@ -1012,7 +1077,7 @@ func (t *ltrans) translate(tg logicTarget) (string, error) {
 		b.WriteString("  unit : Unit := ()\n")
 	}
 	for _, n := range t.order {
-		ty := map[lsort]string{sBool: "Bool", sNat: "Nat", sInt: "Int"}[t.atoms[n]]
+		ty := map[lsort]string{sBool: "Bool", sNat: "Nat", sInt: "Int", sBytes: "_root_.Bytes"}[t.atoms[n]]
 		fmt.Fprintf(&b, "  %s : %s\n", leanQuote(n), ty)
 	}
 	fmt.Fprintf(&b, "\n/-- decision tree of `%s` -/\ndef run (a : Atoms) : R :=\n    %s\n\nend %s\n\n", tg.Fn, term, tg.Lean)
